@@ -59,7 +59,10 @@ Record wf_pstate (st : pstate) : Prop := {
   wf_pid : 0 < pid st < two31; wf_ppid : is_pid (ppid st); wf_sid : is_pid (sid st); wf_pgid : is_pid (pgid st);
   wf_pthread : 0 < pthread_id st < two64; wf_ktid : 0 < ktid st < two31;
   wf_usec : 0 <= clock_usec st < 1000000; wf_sec : 0 <= clock_sec st < two63;
-  wf_owner : forall p u, file_owner st p = Some u -> is_id u
+  wf_owner : forall p u, file_owner st p = Some u -> is_id u;
+  wf_tty : forall fd, fd_tty st fd <> TtyErr 0;                      (* an error has a non-zero number *)
+  wf_host : 0 <= Z.of_N (len (hostname st)) <= 64;                     (* HOST_NAME_MAX *)
+  wf_env : forall env e, environ st = Some env -> In e env -> Z.of_N (len e) < two31
 }.
 
 (** Linux ABI constants that appear (macro-expanded) in the translated trees *)
